@@ -207,8 +207,12 @@ def collectOne (fam : Fam) (nd : Net × Dest) : Option Change :=
   else some { fam, net := nd.1, destId := nd.2.id, best := true, any := true, replaced := none,
               paths := nd.2.entries.filter Entry.eligible }
 
-theorem collect_eq_collectOne (fam : Fam) (r : Rib) : r.collect fam none = r.dests.filterMap (collectOne fam) := by
+theorem collect_eq_collectOne (fam : Fam) (r : Rib) (hd : r.deferring = false) :
+    r.collect fam none = r.dests.filterMap (collectOne fam) := by
   unfold Rib.collect
+  rw [hd]
+  show r.collectAll fam none = _
+  unfold Rib.collectAll
   congr 1
 
 theorem endDeferral_sound {c : Case} {g : Nat → Fam} {t : Table} (fam : Fam) (hinv : Inv c g t) :
@@ -220,7 +224,7 @@ theorem endDeferral_sound {c : Case} {g : Nat → Fam} {t : Table} (fam : Fam) (
     ?_ ?_ ?_ ?_ ?_ ?_ ?_
   · intro f; unfold Table.endDeferral; simp only; rw [setDeferring_dests, List.map_id']
   · show ((t.setRib fam { t.rib fam with deferring := false }).rib fam).collect fam none = _
-    rw [collect_eq_collectOne, setDeferring_dests, chs_single t fam]
+    rw [collect_eq_collectOne _ _ (by rw [setDeferring_deferring, if_pos rfl]), setDeferring_dests, chs_single t fam]
   · intro f nd; exact ⟨rfl, rfl⟩
   · intro f nd ch h
     by_cases hf : f = fam
